@@ -93,14 +93,9 @@ func runC18(c *Ctx) {
 			fail(&okFinish, "C18.finish-once", -1, "a panic in a step escapes Transact: the caller gets no error value and, unless the rollback ran, the transaction stays open")
 		}
 		// (1) begin
-		noSteps := hasFact(facts, func(f Fact) bool {
-			z, isz := f.Y.intConst()
-			return f.X.Kind == KOp && f.X.Name == "len" && f.X.Args[0].Key() == t.Params[1].Key() && isz && z == 0 && (f.Op == token.EQL || f.Op == token.LEQ)
-		})
-		someSteps := hasFact(facts, func(f Fact) bool {
-			z, isz := f.Y.intConst()
-			return f.X.Kind == KOp && f.X.Name == "len" && f.X.Args[0].Key() == t.Params[1].Key() && isz && z == 0 && (f.Op == token.NEQ || f.Op == token.GTR)
-		})
+		// len(steps) found zero / positive, in any spelling (== 0, <= 0, < 1; != 0, > 0, >= 1)
+		lenSteps := &Sym{Kind: KOp, Name: "len", Args: []*Sym{t.Params[1]}}
+		someSteps, noSteps := factsSign(facts, lf(lenSteps))
 		if noSteps && someSteps {
 			n--
 			continue // infeasible: len != 0 and len <= 0
